@@ -5,6 +5,7 @@ import (
 	"encoding/base64"
 	"encoding/binary"
 	"encoding/json"
+	"errors"
 	"fmt"
 	"math/big"
 	"os"
@@ -12,11 +13,13 @@ import (
 	"runtime"
 	"strings"
 	"sync"
+	"sync/atomic"
 	"time"
 
 	"github.com/xelaj/mtproto"
 	"github.com/xelaj/mtproto/internal/encoding/tl"
 	imath "github.com/xelaj/mtproto/internal/math"
+	"github.com/xelaj/mtproto/internal/session"
 	"github.com/xelaj/mtproto/telegram/verifh/ref"
 	"github.com/xelaj/mtproto/telegram/verifh/refsrv"
 )
@@ -35,6 +38,8 @@ type Env struct {
 	Res     *Result
 	outMu   sync.Mutex
 	warnMu  sync.Mutex
+	// StoreFaults: how many of the next session stores fail; StoreFailed: how many did
+	StoreFaults, StoreFailed int32
 }
 
 func NewEnv(sc *Scenario) (*Env, error) {
@@ -162,8 +167,35 @@ func (e *Env) InstallDraws() {
 }
 
 // NewClient creates the client under test on the session file, pointed at the primary server.
+// faultyStore is the file store of the client with a switch: the next StoreFaults calls of Store fail the way a full
+// disk does (nothing is written). Load is untouched.
+type faultyStore struct {
+	inner session.SessionLoader
+	e     *Env
+}
+
+func (f faultyStore) Load() (*session.Session, error) { return f.inner.Load() }
+
+func (f faultyStore) Store(s *session.Session) error {
+	if atomic.LoadInt32(&f.e.StoreFaults) > 0 {
+		atomic.AddInt32(&f.e.StoreFaults, -1)
+		atomic.AddInt32(&f.e.StoreFailed, 1)
+		return errors.New("write session: no space left on device")
+	}
+	return f.inner.Store(s)
+}
+
 func (e *Env) NewClient(host string) error {
-	m, err := mtproto.NewMTProto(mtproto.Config{AuthKeyFile: e.SessionPath(), ServerHost: host, PublicKey: e.PublicKey()})
+	cfg := mtproto.Config{AuthKeyFile: e.SessionPath(), ServerHost: host, PublicKey: e.PublicKey()}
+	if e.Sc.RPC != nil {
+		for _, st := range e.Sc.RPC.Steps {
+			if st.Op == "store-fault" {
+				// only histories that plan a store failure run on the wrapped store
+				cfg = mtproto.Config{SessionStorage: faultyStore{session.NewFromFile(e.SessionPath()), e}, ServerHost: host, PublicKey: e.PublicKey()}
+			}
+		}
+	}
+	m, err := mtproto.NewMTProto(cfg)
 	if err != nil {
 		return err
 	}
